@@ -15,8 +15,10 @@
      stageB_names   get_definitions (del_abs = false), get_ports, get_cables (del_abs = true)
      stageB_netlists get_netlists
      stageB_hier    get_hinstances / get_hports / get_hpins / get_hcables / get_hwires
-   The enumeration of the candidates (which parents / other elements a root object leads to) is not
-   modelled; it is the argument of these functions.  No proofs in this file. *)
+   The enumeration of the candidates (which parents / other elements a root object leads to) is the
+   argument of these functions; for the eight non-hierarchical query functions it is modelled in
+   Query/Enum.v (which applies these stages to it), for the hierarchical ones it is not modelled.
+   No proofs in this file. *)
 From Coq Require Import List NArith Bool.
 From SV Require Import Base.Base Query.Glob Query.Patterns.
 Import ListNotations.
